@@ -12,6 +12,7 @@ fresh interpreter gives identical values.
 from __future__ import annotations
 
 import collections
+import glob
 import json
 import os
 import random
@@ -357,6 +358,8 @@ def replay(payload):
     n1, n2 = payload["n1"], payload["n2"]
     if payload.get("kind") == "hashseed":
         return replay_hashseed(payload)
+    if payload.get("kind") == "history":
+        return replay_history(payload)
     if payload.get("config", "seq") == "seq":
         env, _, _ = execute_phases(prog, n1, n2, st, None)
         bad, _, _ = compare_all(prog, env, st, okw, n1, n2)  # full observation pass, as in the check
@@ -479,7 +482,89 @@ def run_child(seed, runs, hashseed, detail=False):
     return json.loads(p.stdout)
 
 
-def hashseed_check(seed, runs, hashseeds):
+def history_child_main():
+    """Fresh interpreter: execute the programs of stdin {"progs":[{"program","share_tables"}..],"victim":i} one after
+    the other in this one process (observing every slot, so that everything is rendered) and print the observation
+    of slot `victim` of the LAST program."""
+    task = json.loads(sys.stdin.read())
+    lib.get()
+    out = None
+    for k, pr in enumerate(task["progs"]):
+        env = engine.execute(pr["program"], share_tables=pr.get("share_tables", True))
+        last = k == len(task["progs"]) - 1
+        for i in range(len(pr["program"])):
+            if last and i == task["victim"]:
+                out = engine.slot_obs(env, i, inprocess=False)
+            elif not isinstance(env.heap[i], (lang.Skipped, engine.MutableAlias)):
+                engine.slot_obs(env, i, inprocess=False)
+    sys.stdout.write(json.dumps(out))
+
+
+def run_history_child(progs, victim, hashseed=None):
+    env = dict(os.environ)
+    if hashseed is not None:
+        env["PYTHONHASHSEED"] = str(hashseed)
+    env["PYTHONDONTWRITEBYTECODE"] = "1"
+    code = "import sys; sys.path.insert(0, %r); from pikasim import c02; c02.history_child_main()" % HERE
+    p = subprocess.run(["/venv/bin/python", "-c", code], env=env, input=json.dumps({"progs": progs, "victim": victim}),
+                       capture_output=True, text=True, timeout=600)
+    if p.returncode != 0:
+        raise lang.HarnessError("history child failed: " + p.stderr[-1500:])
+    return json.loads(p.stdout)
+
+
+def minimise_history(cands, target, victim, alone):
+    """`cands`: earlier programs of this process; find a 1-minimal sub-list after which `target`, executed in a fresh
+    interpreter, yields something else than it does alone in a fresh interpreter.  Every probe is a new interpreter."""
+    def differs(prelude):
+        return run_history_child(prelude + [target], victim) != alone
+    cur = None
+    # a larger prelude is not always a stronger one (what an earlier program leaves behind can mask what a later one
+    # would): try the whole history, then its younger half, then every single program, youngest first
+    for trial in (list(cands), list(cands[len(cands) // 2:])):
+        if trial and differs(trial):
+            cur = trial
+            break
+    if cur is None:
+        for pr in list(reversed(cands))[:150]:
+            if differs([pr]):
+                cur = [pr]
+                break
+    if cur is None:
+        return None
+    # halving first, then one at a time
+    while len(cur) > 1:
+        h = len(cur) // 2
+        if differs(cur[h:]):
+            cur = cur[h:]
+        elif differs(cur[:h]):
+            cur = cur[:h]
+        else:
+            break
+    k = 0
+    while k < len(cur) and len(cur) > 1:
+        trial = cur[:k] + cur[k + 1:]
+        if differs(trial):
+            cur = trial
+        else:
+            k += 1
+    # slice a single remaining prelude program down to the cone of one slot if that still suffices
+    if len(cur) == 1:
+        pr = cur[0]
+        best = pr
+        for i in range(len(pr["program"])):
+            keep = sorted(lang.cone(pr["program"], i))
+            if len(keep) >= len(best["program"]):
+                continue
+            p2, _ = shrink.slice_program(pr["program"], keep)
+            cand = {"program": p2, "share_tables": pr.get("share_tables", True)}
+            if differs([cand]):
+                best = cand
+        cur = [best]
+    return cur
+
+
+def hashseed_check(seed, runs, hashseeds, history=None):
     """Compare this process's sequential values of `runs` with fresh interpreters under other hash seeds."""
     L = lib.get()
     mine = {}
@@ -489,6 +574,7 @@ def hashseed_check(seed, runs, hashseeds):
     viol = []
     harness = []
     n = 0
+    n_hist = 0
     for hs in hashseeds:
         theirs = run_child(seed, runs, hs)
         for run in runs:
@@ -505,6 +591,7 @@ def hashseed_check(seed, runs, hashseeds):
             diffs = [i for i, (x, y) in enumerate(zip(da, b["values"])) if x != y]
             if not diffs:
                 continue
+            own_hs = os.environ.get("PYTHONHASHSEED", "random")
             det = run_child(seed, [run], hs, detail=True)[str(run)]
             i = diffs[0]
             va, vb = a["values"][i], det["values"][i]
@@ -514,10 +601,53 @@ def hashseed_check(seed, runs, hashseeds):
             obj = op["o"] if op["op"] == "render" else i
             target = engine._deref(env, obj)
             label = stmt_label(L, target) if is_object_slot(target) else "?"
-            keys = obs.diff(va, vb) if isinstance(va, dict) and isinstance(vb, dict) else ["value"]
-            sig = f"{PROP}:hashseed:{label}"
             keep = sorted(lang.cone(program, i))
             prog2, mp = shrink.slice_program(program, keep)
+            # Which of the two things that differ between the processes is responsible?  Two fresh interpreters that
+            # execute ONLY this run, one under each hash seed: if they agree, the hash seed is innocent and what differs
+            # is what the processes had executed BEFORE this run (process-global state surviving from one render to
+            # a later render of another object).
+            alone_other = det["values"]
+            alone_own = run_child(seed, [run], own_hs if own_hs != "random" else 0, detail=True)[str(run)]["values"]
+            if alone_own == alone_other:
+                tgt = {"program": program, "share_tables": bld["knobs"]["share_tables"]}
+                alone = alone_own[i]
+                n_hist += 1
+                if n_hist > 3 or runner.stop_requested():
+                    continue  # enough of these diagnosed in this batch (each costs tens of interpreter starts)
+                # what this process executed before: the earlier batches of this worker, this batch
+                cands = []
+                for (s2, lo2, hi2) in PROCESS_LOG:
+                    for r2 in range(lo2, hi2):
+                        if (s2, r2) == (seed, run):
+                            continue
+                        b2 = build(s2, r2)  # discarded programs were executed as far as they got, too
+                        cands.append({"program": b2["program"], "share_tables": b2["knobs"]["share_tables"]})
+                prelude = minimise_history(cands, tgt, i, alone)
+                sig = f"{PROP}:process-history:{label}"
+                if prelude is not None:
+                    after = run_history_child(prelude + [{"program": prog2, "share_tables": tgt["share_tables"]}], mp[i])
+                    sliced_ok = after != alone
+                    t2 = {"program": prog2, "share_tables": tgt["share_tables"]} if sliced_ok else tgt
+                    v2 = mp[i] if sliced_ok else i
+                    if not sliced_ok:
+                        after = run_history_child(prelude + [tgt], i)
+                    keys = obs.diff(after, alone) if isinstance(after, dict) and isinstance(alone, dict) else ["value"]
+                    payload = {"property": PROP, "kind": "history", "seed": seed, "run": run, "prelude": prelude,
+                               "program": t2["program"], "victim": v2, "n1": len(t2["program"]), "n2": len(t2["program"]),
+                               "share_tables": t2["share_tables"], "signature": sig, "differs_on": keys[:8],
+                               "after_prelude": {k: after.get(k) for k in keys[:2]} if isinstance(after, dict) else after,
+                               "fresh_interpreter": {k: alone.get(k) for k in keys[:2]} if isinstance(alone, dict) else alone}
+                    viol.append((sig, payload, run))
+                else:
+                    if os.environ.get("PIKASIM_DEBUG_HISTORY"):
+                        sys.stderr.write("DEBUG-HISTORY %s\n" % json.dumps({"run": run, "slot": i, "log": PROCESS_LOG, "ncands": len(cands), "pid": os.getpid()}))
+                    harness.append({"run": run, "why": "values differ between this long-lived process and a fresh "
+                                    "interpreter, independent of the hash seed, but no sequential prelude of this "
+                                    "batch's programs reproduces it in a fresh interpreter"})
+                continue
+            keys = obs.diff(va, vb) if isinstance(va, dict) and isinstance(vb, dict) else ["value"]
+            sig = f"{PROP}:hashseed:{label}"
             payload = {"property": PROP, "kind": "hashseed", "seed": seed, "run": run, "program": prog2, "victim": mp[i],
                        "n1": len(prog2), "n2": len(prog2), "share_tables": bld["knobs"]["share_tables"],
                        "hashseeds": [os.environ.get("PYTHONHASHSEED", "random"), str(hs)], "signature": sig,
@@ -526,6 +656,16 @@ def hashseed_check(seed, runs, hashseeds):
                        "other_process": {k: vb.get(k) for k in keys[:2]} if isinstance(vb, dict) else vb}
             viol.append((sig, payload, run))
     return viol, harness, n
+
+
+def replay_history(payload):
+    """Two fresh interpreters under one hash seed: the program alone, and the program after the recorded prelude."""
+    tgt = {"program": payload["program"], "share_tables": payload.get("share_tables", True)}
+    alone = run_history_child([tgt], payload["victim"])
+    after = run_history_child(payload["prelude"] + [tgt], payload["victim"])
+    if alone != after:
+        return True, payload["signature"]
+    return False, "not reproduced"
 
 
 def replay_hashseed(payload):
@@ -557,9 +697,13 @@ TIERS = {
 }
 
 
+PROCESS_LOG: list = []  # (seed, lo, hi) of every batch this worker process has executed, oldest first
+
+
 def batch(task):
     L = lib.get()
     seed, lo, hi = task["seed"], task["lo"], task["hi"]
+    PROCESS_LOG.append((seed, lo, hi))
     tier = TIERS[task.get("tier", "quick")]
     agg = new_agg()
     for run in range(lo, hi):
@@ -585,10 +729,11 @@ def batch(task):
     k = max(1, int((hi - lo) * tier["hashseed_frac"]))
     sub = list(range(lo, hi))[:k]
     if not task.get("no_hashseed"):
-        viol, harness, n = hashseed_check(seed, sub, tier["hashseeds"])
+        viol, harness, n = hashseed_check(seed, sub, tier["hashseeds"], history=list(range(lo, hi)))
         agg["hashseed_compared"] += n
         agg["fired"]["hashseed_restart"] += n
         agg["harness"].extend(harness[:2])
+        runner.note_violations(len(viol))
         for sig, payload, run in viol:
             agg["violations"].append((sig, payload, run))
     return agg
@@ -686,6 +831,12 @@ def evidence(agg, tier, seed, wall):
         "faults_fired": dict(agg["fired"]),
         "runs_with_a_fired_fault": agg["fault_runs"],
         "runs_compared_across_interpreters_with_other_PYTHONHASHSEED": agg["hashseed_compared"],
+        "cross_interpreter_oracle": "the values this long-lived worker obtains (after all earlier runs, threads and "
+                                    "faults of its batches) are compared with fresh interpreters under other hash "
+                                    "seeds; a difference is attributed by two more fresh interpreters that execute only "
+                                    "that run: if they differ it is the hash seed (signature C02:hashseed), otherwise "
+                                    "what was executed earlier in the process (C02:process-history), and the replay file "
+                                    "then carries a minimised prelude program that reproduces it in a fresh interpreter",
         "complete_crashpoint_sweeps_of_one_read_event": agg["sweeps"],
         "crash_points_enumerated_in_those_sweeps": agg["crashpoints"],
         "discarded_runs": agg["discards"],
